@@ -431,6 +431,90 @@ impl CorpusProg for PRaft {
     }
 }
 
+pub struct PIntickKeyedOrder {
+    compiled: CompiledSim,
+    ports: (NoSend<(u8, i32)>, OrdRecv<Vec<(u8, Vec<i32>)>>),
+}
+impl PIntickKeyedOrder {
+    pub fn build() -> Result<Self, SimPanic> {
+        let mut flow = FlowBuilder::new();
+        let node = flow.process::<()>();
+        let ports = intick_keyed_order(&node);
+        Ok(Self { compiled: compile(flow.sim())?, ports })
+    }
+}
+impl CorpusProg for PIntickKeyedOrder {
+    fn name(&self) -> &'static str {
+        "intick_keyed_order"
+    }
+    fn run(&self, tape: Vec<u8>) -> Record {
+        let (send, out) = &self.ports;
+        repro!(self.compiled, tape, |outputs| {
+            // 4 keys x 3 values: most batches hold several keys with several values each
+            send.send_many_unordered([
+                (3u8, 1), (7, 2), (11, 3), (200, 4),
+                (3, 5), (7, 6), (11, 7), (200, 8),
+                (3, 9), (7, 10), (11, 11), (200, 12),
+            ]);
+            let all: Vec<Vec<(u8, Vec<i32>)>> = out.collect().await;
+            outputs = format!("{all:?}");
+        })
+    }
+}
+
+pub struct PIntickMerge {
+    compiled: CompiledSim,
+    ports: (OrdSend<i32>, OrdSend<i32>, OrdRecv<Vec<i32>>),
+}
+impl PIntickMerge {
+    pub fn build() -> Result<Self, SimPanic> {
+        let mut flow = FlowBuilder::new();
+        let node = flow.process::<()>();
+        let ports = intick_merge_ordered(&node);
+        Ok(Self { compiled: compile(flow.sim())?, ports })
+    }
+}
+impl CorpusProg for PIntickMerge {
+    fn name(&self) -> &'static str {
+        "intick_merge_ordered"
+    }
+    fn run(&self, tape: Vec<u8>) -> Record {
+        let (send_a, send_b, out) = &self.ports;
+        repro!(self.compiled, tape, |outputs| {
+            send_a.send_many([1, 2, 3, 4]);
+            send_b.send_many([101, 102, 103, 104]);
+            let all: Vec<Vec<i32>> = out.collect().await;
+            outputs = format!("{all:?}");
+        })
+    }
+}
+
+pub struct PIntickPartial {
+    compiled: CompiledSim,
+    ports: (OrdSend<(u8, i32)>, OrdRecv<Vec<(u8, i32)>>),
+}
+impl PIntickPartial {
+    pub fn build() -> Result<Self, SimPanic> {
+        let mut flow = FlowBuilder::new();
+        let node = flow.process::<()>();
+        let ports = intick_partially_ordered(&node);
+        Ok(Self { compiled: compile(flow.sim())?, ports })
+    }
+}
+impl CorpusProg for PIntickPartial {
+    fn name(&self) -> &'static str {
+        "intick_partially_ordered"
+    }
+    fn run(&self, tape: Vec<u8>) -> Record {
+        let (send, out) = &self.ports;
+        repro!(self.compiled, tape, |outputs| {
+            send.send_many([(3u8, 1), (7, 2), (3, 3), (11, 4), (7, 5), (3, 6), (11, 7), (7, 8)]);
+            let all: Vec<Vec<(u8, i32)>> = out.collect().await;
+            outputs = format!("{all:?}");
+        })
+    }
+}
+
 pub fn corpus_names(with_raft: bool) -> Vec<&'static str> {
     let mut v = vec![
         "batch_ordered",
@@ -442,6 +526,9 @@ pub fn corpus_names(with_raft: bool) -> Vec<&'static str> {
         "tick_order_witness",
         "toplevel_order",
         "intick_order",
+        "intick_keyed_order",
+        "intick_merge_ordered",
+        "intick_partially_ordered",
         "cluster_relay",
         "quorum_resp_unordered_2_3",
         "keyed_counter",
@@ -470,6 +557,9 @@ fn build_prog_inner(name: &str) -> Result<Box<dyn CorpusProg>, SimPanic> {
         "tick_order_witness" => Box::new(PTickOrder::build()?),
         "toplevel_order" => Box::new(PTopOrder::build()?),
         "intick_order" => Box::new(PIntickOrder::build()?),
+        "intick_keyed_order" => Box::new(PIntickKeyedOrder::build()?),
+        "intick_merge_ordered" => Box::new(PIntickMerge::build()?),
+        "intick_partially_ordered" => Box::new(PIntickPartial::build()?),
         "cluster_relay" => Box::new(PClusterRelay::build()?),
         "quorum_resp_unordered_2_3" => Box::new(PQuorum::build()?),
         "keyed_counter" => Box::new(PKeyedCounter::build()?),
@@ -482,6 +572,22 @@ fn nontrivial_decisions(log: &str) -> usize {
     log.lines()
         .filter(|l| l.contains("^ "))
         .filter(|l| !l.contains("releasing no items") && !l.contains("unchanged snapshot"))
+        .count()
+}
+
+/// Number of keyed in-tick ordering decisions in the log whose batch holds >=2 keys with >=2
+/// values each (the situation in which the per-key shuffle decisions depend on the order in
+/// which the hook visits the keys).
+fn keyed_order_decisions(log: &str) -> usize {
+    log.lines()
+        .filter(|l| l.contains("observed non-deterministic order: {"))
+        .filter(|l| {
+            l.split('[')
+                .skip(1)
+                .filter(|g| g.split(']').next().is_some_and(|inner| inner.contains(',')))
+                .count()
+                >= 2
+        })
         .count()
 }
 
@@ -617,6 +723,18 @@ pub fn run(ctx: &mut Ctx) {
             replays.set(replays.get() + 2);
             obs.class(if a.verdict == "ok" { "verdict:ok" } else { "verdict:panic" });
             obs.nontrivial(nontrivial_decisions(&a.log) >= 5);
+            if keyed_order_decisions(&a.log) >= 1 {
+                obs.class("keyed-in-tick-order-decision:>=2-keys-with->=2-values");
+            }
+            for (needle, label) in [
+                ("observed non-deterministic merge order", "inline:merge-ordered-decision"),
+                ("observed partially-ordered interleaving", "inline:partially-ordered-decision"),
+                ("observed non-deterministic order: [", "inline:stream-order-decision"),
+            ] {
+                if a.log.contains(needle) {
+                    obs.class(label);
+                }
+            }
             compare(p.name(), "same-process", &a, &b)
         },
     );
